@@ -3882,7 +3882,7 @@ class ContractionTreeCompressed(ContractionTree):
             chi = "auto"
 
         if chi == "auto":
-            chi = max(self.size_dict.values()) ** 2
+            chi = max(self.size_dict.values(), default=1) ** 2
 
         return chi
 
